@@ -12,7 +12,7 @@ CXXFLAGS = ['-std=c++17', '-fPIC', '-O1', '-g0', '-w', '-DQTLOGGER_STATIC', '-DQ
 def build_lib(workdir, sanitize=False):
     """-> path of libqtlogger_replay.a built from the working tree (cached by tree hash)."""
     src = cxxast.SRC
-    tag = cxxast.tree_hash() + ('_san' if sanitize else '')
+    tag = cxxast.tree_hash() + ('_san2' if sanitize else '')
     libdir = os.path.join(os.path.dirname(cxxast.CACHE), 'replaylib', tag)
     lib = os.path.join(libdir, 'libqtlogger_replay.a')
     if os.path.exists(lib): return lib
@@ -29,7 +29,7 @@ def build_lib(workdir, sanitize=False):
             moc = '/usr/lib/qt5/bin/moc'
             subprocess.run([moc, '-DQTLOGGER_STATIC', '-I' + src, h, '-o', out], check=True)
             mocs.append(out)
-    flags = CXXFLAGS + (['-fsanitize=address,undefined'] if sanitize else []) + QTINC + ['-I' + src]
+    flags = CXXFLAGS + (['-fsanitize=address,undefined', '-DQT_FORCE_ASSERTS', '-UQT_NO_DEBUG'] if sanitize else []) + QTINC + ['-I' + src]      # Qt's inline index assertions abort (a negative index otherwise reads the array header silently)
     def cc(c):
         o = os.path.join(libdir, hashlib.md5(c.encode()).hexdigest()[:10] + '_' + os.path.basename(c) + '.o')
         r = subprocess.run(['g++'] + flags + ['-c', c, '-o', o], capture_output=True, text=True)
@@ -45,7 +45,7 @@ def build_driver(workdir, name, source_text, sanitize=False, extra=()):
     lib = build_lib(workdir, sanitize)
     cpp = os.path.join(workdir, name + '.cpp'); exe = os.path.join(workdir, name)
     open(cpp, 'w').write(source_text)
-    flags = CXXFLAGS + (['-fsanitize=address,undefined'] if sanitize else []) + QTINC + ['-I' + cxxast.SRC]
+    flags = CXXFLAGS + (['-fsanitize=address,undefined', '-DQT_FORCE_ASSERTS', '-UQT_NO_DEBUG'] if sanitize else []) + QTINC + ['-I' + cxxast.SRC]
     r = subprocess.run(['g++'] + flags + [cpp, lib, '-lQt5Core', '-lpthread', '-ldl'] + list(extra) + ['-o', exe], capture_output=True, text=True)
     if r.returncode != 0: raise RuntimeError('driver compile failed:\n' + r.stderr[-3000:])
     return exe
